@@ -2,4 +2,296 @@
 import RV.Model.Auth
 import RV.Proofs.Wire
 namespace RV
+
+/-! ### code tables -/
+
+theorem encodeClass_eq_rfc (c : Int) : encodeClass c = Rfc.encClass c := by
+  unfold Rfc.encClass
+  split <;> simp_all [encodeClass]
+
+theorem requestClass_eq_rfc (c : Nat) : requestClass c = Rfc.reqClass c := by
+  unfold Rfc.reqClass
+  split <;> simp_all [requestClass]
+
+/-- on 0..255 the request switch is the encoder switch read on the code octet -/
+theorem reqClass_of_encClass_hashZero (c : Int) (h : Rfc.encClass c = .hashZero) :
+    Rfc.reqClass c.toNat = .hashZero := by
+  unfold Rfc.encClass at h
+  split at h <;> first | rfl | cases h
+
+theorem reqClass_of_encClass_verbatim (c : Int) (h : Rfc.encClass c = .verbatim) :
+    Rfc.reqClass c.toNat = .always := by
+  unfold Rfc.encClass at h
+  split at h <;> first | rfl | cases h
+
+/-! ### shape of a marshalled datagram -/
+
+theorem marshal_ok_shape (p : Packet) (b : Bytes) (h : marshal p = .ok b) :
+    ∃ n body, b = header p.code p.id n p.auth ++ body := by
+  rw [marshal_eq] at h
+  split at h
+  · cases h; exact ⟨_, _, rfl⟩
+  · cases h
+
+theorem marshal_ok_length (p : Packet) (b : Bytes) (h : marshal p = .ok b)
+    (ha : p.auth.length = 16) : 20 ≤ b.length := by
+  obtain ⟨n, body, rfl⟩ := marshal_ok_shape p b h
+  rw [List.length_append, header_length, ha]; omega
+
+theorem marshal_ok_code (p : Packet) (b : Bytes) (h : marshal p = .ok b) :
+    b.getD 0 0 = codeByte p.code := by
+  obtain ⟨n, body, rfl⟩ := marshal_ok_shape p b h
+  simp [header]
+
+theorem marshal_ok_auth (p : Packet) (b : Bytes) (h : marshal p = .ok b)
+    (ha : p.auth.length = 16) : (b.drop 4).take 16 = p.auth := by
+  obtain ⟨n, body, rfl⟩ := marshal_ok_shape p b h
+  simp [header, ha]
+
+/-! ### putAuth / authInput -/
+
+theorem putAuth_take4 (b h : Bytes) (hb : 4 ≤ b.length) : (putAuth b h).take 4 = b.take 4 := by
+  unfold putAuth
+  rw [List.append_assoc, List.take_append_of_le_length (by simp; omega), List.take_take,
+    Nat.min_self]
+
+theorem putAuth_drop4 (b h : Bytes) (hb : 4 ≤ b.length) :
+    (putAuth b h).drop 4 = h ++ b.drop 20 := by
+  unfold putAuth
+  rw [List.append_assoc, List.drop_append_of_le_length (by simp; omega)]
+  simp [List.drop_eq_nil_of_le, hb]
+
+theorem putAuth_auth (b h : Bytes) (hb : 4 ≤ b.length) (hh : h.length = 16) :
+    ((putAuth b h).drop 4).take 16 = h := by
+  rw [putAuth_drop4 b h hb, List.take_append_of_le_length (by omega)]
+  exact List.take_of_length_le (by omega)
+
+theorem putAuth_drop20 (b h : Bytes) (hb : 4 ≤ b.length) (hh : h.length = 16) :
+    (putAuth b h).drop 20 = b.drop 20 := by
+  have : (putAuth b h).drop 20 = ((putAuth b h).drop 4).drop 16 := by simp
+  rw [this, putAuth_drop4 b h hb, List.drop_append_of_le_length (by omega)]
+  simp [List.drop_eq_nil_of_le, hh]
+
+theorem putAuth_length (b h : Bytes) (hb : 20 ≤ b.length) (hh : h.length = 16) :
+    (putAuth b h).length = b.length := by
+  simp [putAuth, hh]; omega
+
+theorem putAuth_getD0 (b h : Bytes) (hb : 4 ≤ b.length) :
+    (putAuth b h).getD 0 0 = b.getD 0 0 := by
+  match b, hb with
+  | a :: b :: c :: d :: rest, _ => simp [putAuth]
+
+theorem authInput_putAuth (b h a s : Bytes) (hb : 4 ≤ b.length) (hh : h.length = 16) :
+    authInput (putAuth b h) a s = authInput b a s := by
+  unfold authInput
+  rw [putAuth_take4 b h hb, putAuth_drop20 b h hb hh]
+
+theorem replyAuth_eq (H : Hash) (w a s : Bytes) : Rfc.replyAuth H w a s = H (authInput w a s) := rfl
+
+/-! ### encode -/
+
+theorem encode_ok_cases (H : Hash) (p : Packet) (w : Bytes) (h : encode H p = .ok w) :
+    ∃ b, marshal p = .ok b ∧
+      (match Rfc.encClass p.code with
+       | .verbatim => w = b
+       | .hashReqAuth => w = putAuth b (H (authInput b p.auth p.secret))
+       | .hashZero => w = putAuth b (H (authInput b (zeros 16) p.secret))
+       | .refused => False) := by
+  unfold encode at h
+  rw [encodeClass_eq_rfc] at h
+  cases hm : marshal p with
+  | ok b =>
+    rw [hm] at h
+    refine ⟨b, rfl, ?_⟩
+    cases hc : Rfc.encClass p.code <;> rw [hc] at h <;> simp_all
+  | err => rw [hm] at h; cases h
+  | fault => rw [hm] at h; cases h
+
+theorem encode_ok_of (H : Hash) (p : Packet) (b : Bytes) (hm : marshal p = .ok b)
+    (hc : Rfc.encClass p.code ≠ .refused) : ∃ w, encode H p = .ok w := by
+  unfold encode
+  rw [encodeClass_eq_rfc, hm]
+  cases hc' : Rfc.encClass p.code <;> simp_all
+
+theorem encode_ne_fault (H : Hash) (p : Packet) : encode H p ≠ .fault := by
+  unfold encode
+  have := marshal_ne_fault p
+  cases hm : marshal p with
+  | ok b => cases encodeClass p.code <;> simp
+  | err => simp
+  | fault => exact absurd hm this
+
+theorem encode_ok_iff_cond (H : Hash) (p : Packet) :
+    (∃ w, encode H p = .ok w) ↔ (Rfc.encClass p.code ≠ .refused ∧ ∃ b, marshal p = .ok b) := by
+  constructor
+  · rintro ⟨w, h⟩
+    obtain ⟨b, hm, hcase⟩ := encode_ok_cases H p w h
+    refine ⟨?_, b, hm⟩
+    intro hc; rw [hc] at hcase; exact hcase
+  · rintro ⟨hc, b, hm⟩
+    exact encode_ok_of H p b hm hc
+
+theorem encode_refused (H : Hash) (p : Packet) (h : Rfc.encClass p.code = .refused) (w : Bytes) :
+    encode H p ≠ .ok w := by
+  intro he
+  obtain ⟨b, _, hcase⟩ := encode_ok_cases H p w he
+  rw [h] at hcase; exact hcase
+
+theorem encode_auth_field (H : Hash) (hH : ∀ x, (H x).length = 16) (p : Packet) (w : Bytes)
+    (ha : p.auth.length = 16) (h : encode H p = .ok w) :
+    (w.drop 4).take 16 =
+      (match Rfc.encClass p.code with
+       | .verbatim => p.auth
+       | .hashZero => Rfc.replyAuth H w (zeros 16) p.secret
+       | .hashReqAuth => Rfc.replyAuth H w p.auth p.secret
+       | .refused => []) ∧
+    ∃ b, marshal p = .ok b ∧ w.take 4 = b.take 4 ∧ w.drop 20 = b.drop 20 ∧ w.length = b.length := by
+  obtain ⟨b, hm, hcase⟩ := encode_ok_cases H p w h
+  have hb := marshal_ok_length p b hm ha
+  have hb4 : 4 ≤ b.length := by omega
+  cases hc : Rfc.encClass p.code <;> rw [hc] at hcase <;> simp only []
+  · subst hcase
+    exact ⟨marshal_ok_auth p w hm ha, w, hm, rfl, rfl, rfl⟩
+  · subst hcase
+    refine ⟨?_, b, hm, putAuth_take4 _ _ hb4, putAuth_drop20 _ _ hb4 (hH _),
+      putAuth_length _ _ hb (hH _)⟩
+    rw [putAuth_auth _ _ hb4 (hH _), replyAuth_eq, authInput_putAuth _ _ _ _ hb4 (hH _)]
+  · subst hcase
+    refine ⟨?_, b, hm, putAuth_take4 _ _ hb4, putAuth_drop20 _ _ hb4 (hH _),
+      putAuth_length _ _ hb (hH _)⟩
+    rw [putAuth_auth _ _ hb4 (hH _), replyAuth_eq, authInput_putAuth _ _ _ _ hb4 (hH _)]
+  · exact hcase.elim
+
+/-! ### predicates -/
+
+theorem bytes_ne_nil_iff (s : Bytes) : ¬ s.length = 0 ↔ s ≠ [] := by
+  simp
+
+theorem isAuthenticResponse_iff_rfc (H : Hash) (r q s : Bytes) :
+    isAuthenticResponse H r q s = true ↔
+      20 ≤ r.length ∧ 20 ≤ q.length ∧ s ≠ [] ∧
+      (r.drop 4).take 16 = Rfc.replyAuth H r ((q.drop 4).take 16) s := by
+  unfold isAuthenticResponse
+  rw [replyAuth_eq]
+  split
+  · rename_i hc
+    constructor
+    · intro h; cases h
+    · rintro ⟨h1, h2, h3, _⟩
+      rcases hc with hc | hc | hc
+      · omega
+      · omega
+      · exact absurd (List.eq_nil_of_length_eq_zero hc) h3
+  · rename_i hc
+    have h1 : 20 ≤ r.length := by omega
+    have h2 : 20 ≤ q.length := by omega
+    have h3 : s ≠ [] := by
+      intro hs; apply hc; right; right; simp [hs]
+    rw [beq_iff_eq]
+    constructor
+    · intro h; exact ⟨h1, h2, h3, h.symm⟩
+    · rintro ⟨_, _, _, h⟩; exact h.symm
+
+theorem isAuthenticRequest_iff_rfc (H : Hash) (q s : Bytes) :
+    isAuthenticRequest H q s = true ↔
+      20 ≤ q.length ∧ s ≠ [] ∧
+      (match Rfc.reqClass (q.getD 0 0).toNat with
+       | .always => True
+       | .hashZero => (q.drop 4).take 16 = Rfc.replyAuth H q (zeros 16) s
+       | .never => False) := by
+  unfold isAuthenticRequest
+  rw [replyAuth_eq, requestClass_eq_rfc]
+  split
+  · rename_i hc
+    constructor
+    · intro h; cases h
+    · rintro ⟨h1, h3, _⟩
+      rcases hc with hc | hc
+      · omega
+      · exact absurd (List.eq_nil_of_length_eq_zero hc) h3
+  · rename_i hc
+    have h1 : 20 ≤ q.length := by omega
+    have h3 : s ≠ [] := by
+      intro hs; apply hc; right; simp [hs]
+    cases Rfc.reqClass (q.getD 0 0).toNat
+    · simp [h1, h3]
+    · simp only [beq_iff_eq]
+      constructor
+      · intro h; exact ⟨h1, h3, h.symm⟩
+      · rintro ⟨_, _, h⟩; exact h.symm
+    · simp
+
+/-! ### consistency -/
+
+theorem response_verifies_aux (H : Hash) (hH : ∀ x, (H x).length = 16)
+    (req : Packet) (reqWire : Bytes) (code : Int) (attrs : Attrs) (w : Bytes)
+    (hq : 20 ≤ reqWire.length) (hqa : (reqWire.drop 4).take 16 = req.auth) (ha : req.auth.length = 16)
+    (hs : req.secret ≠ [])
+    (hc : Rfc.encClass code = .hashReqAuth)
+    (h : encode H { response req code with attrs := attrs } = .ok w) :
+    isAuthenticResponse H w reqWire req.secret = true := by
+  rw [isAuthenticResponse_iff_rfc]
+  obtain ⟨hauth, b, hm, _, _, hlen⟩ := encode_auth_field H hH _ w (by exact ha) h
+  have hb := marshal_ok_length _ b hm (by exact ha)
+  simp only [response] at hauth
+  rw [hc] at hauth
+  simp only [] at hauth
+  refine ⟨by omega, hq, hs, ?_⟩
+  rw [hqa]; exact hauth
+
+theorem request_verifies_aux (H : Hash) (hH : ∀ x, (H x).length = 16) (p : Packet) (w : Bytes)
+    (ha : p.auth.length = 16) (hs : p.secret ≠ [])
+    (hc : Rfc.encClass p.code = .hashZero ∨ Rfc.encClass p.code = .verbatim)
+    (hcode : 0 ≤ p.code ∧ p.code ≤ 255)
+    (h : encode H p = .ok w) :
+    isAuthenticRequest H w p.secret = true := by
+  rw [isAuthenticRequest_iff_rfc]
+  obtain ⟨hauth, b, hm, ht4, _, hlen⟩ := encode_auth_field H hH p w ha h
+  have hb := marshal_ok_length p b hm ha
+  have hw : 20 ≤ w.length := by omega
+  have hcb : w.getD 0 0 = codeByte p.code := by
+    have h1 := take4_eq w (by omega)
+    have h2 := take4_eq b (by omega)
+    rw [ht4, h2] at h1
+    have := marshal_ok_code p b hm
+    simp only [List.cons.injEq] at h1
+    rw [← h1.1]; exact this
+  have hnat : (w.getD 0 0).toNat = p.code.toNat := by
+    rw [hcb]
+    have := codeByte_cast hcode.1 hcode.2
+    omega
+  refine ⟨hw, hs, ?_⟩
+  rw [hnat]
+  rcases hc with hc | hc
+  · rw [reqClass_of_encClass_hashZero _ hc]
+    rw [hc] at hauth
+    exact hauth
+  · rw [reqClass_of_encClass_verbatim _ hc]
+    trivial
+
+/-! ### tampering -/
+
+theorem authInput_injective (r r' a a' s s' : Bytes)
+    (hr : 20 ≤ r.length) (hr' : 20 ≤ r'.length) (ha : a.length = 16) (ha' : a'.length = 16)
+    (hs : s.length = s'.length)
+    (h : authInput r a s = authInput r' a' s') :
+    r.take 4 = r'.take 4 ∧ a = a' ∧ r.drop 20 = r'.drop 20 ∧ s = s' := by
+  unfold authInput at h
+  simp only [List.append_assoc] at h
+  have h4 : (r.take 4).length = (r'.take 4).length := by simp; omega
+  obtain ⟨e1, h⟩ := List.append_inj h h4
+  obtain ⟨e2, h⟩ := List.append_inj h (by omega)
+  obtain ⟨e3, e4⟩ := List.append_inj' h hs
+  exact ⟨e1, e2, e3, e4⟩
+
+/-! ### New -/
+
+theorem newPacket_fields (rnd : Bytes) (c : Int) (s : Bytes) (h : rnd.length = 17) :
+    (newPacket rnd c s).id = rnd.getD 0 0 ∧ (newPacket rnd c s).auth = rnd.drop 1 ∧
+    (newPacket rnd c s).auth.length = 16 ∧ (newPacket rnd c s).code = c ∧
+    (newPacket rnd c s).secret = s ∧ (newPacket rnd c s).attrs = [] := by
+  have : (rnd.drop 1).take 16 = rnd.drop 1 := List.take_of_length_le (by simp; omega)
+  refine ⟨rfl, this, ?_, rfl, rfl, rfl⟩
+  simp [newPacket]; omega
+
 end RV
